@@ -303,3 +303,71 @@ func VerifH_C20_errBurst() {
 	verifAssert(pr.seen == K, "not every frame read was processed")
 	verifCover("done")
 }
+
+// c20SeqReader: N unknown failures in a row, then one frame, then EOF; optional cancel at a call.
+type c20SeqReader struct {
+	N, calls int
+	cancelAt int
+	cancel   func()
+	at       []int64
+	errs     []error
+}
+
+func (r *c20SeqReader) ReadPacketData() ([]byte, *gopacket.CaptureInfo, error) {
+	i := r.calls
+	r.calls++
+	r.at = append(r.at, verifNow())
+	if i == r.cancelAt {
+		r.cancel()
+	}
+	switch {
+	case i < r.N:
+		e := &c20Err{i}
+		r.errs = append(r.errs, e)
+		return nil, nil, e
+	case i == r.N:
+		return []byte{0, 0}, &gopacket.CaptureInfo{}, nil
+	}
+	return nil, nil, io.EOF
+}
+
+// VerifH_C20_unknownBurst: N consecutive unknown read failures: each is reported once, in order,
+// reading goes on after each within a bounded pause that does not depend on how many came before
+// (250 ms allowed per failure; the code pauses 5 ms), the frame behind them is processed, and a
+// cancellation during the burst ends the stream within the same bound.
+func VerifH_C20_unknownBurst() {
+	N := verifParam("N", 12)
+	const perFailure = int64(250 * time.Millisecond)
+	verifNow()
+	rd := &c20SeqReader{N: N, cancelAt: -1}
+	if ndBool("cancel") {
+		c := ndU8("cancelAtCall")
+		verifAssume(int(c) <= N)
+		rd.cancelAt = int(verifConcretize(uint64(c)))
+	}
+	pr := &c20BurstProc{fail: make([]bool, 1)}
+	ctx, cancel := context.WithCancel(context.Background())
+	defer cancel()
+	rd.cancel = cancel
+	errc := NewReceiver(rd, pr).ReceivePackets(ctx)
+	n := 0
+	for e := range errc {
+		verifAssert(n < len(rd.errs) && e == rd.errs[n], "unknown read failures not reported once each, in order")
+		n++
+	}
+	end := verifNow()
+	for i := 1; i < len(rd.at); i++ {
+		verifAssert(rd.at[i]-rd.at[i-1] <= perFailure, "the pause after a read failure grows with the number of failures before it (reading effectively stops)")
+	}
+	if rd.cancelAt >= 0 {
+		verifCover("cancelled")
+		verifAssert(rd.calls <= rd.cancelAt+1, "a read was started after cancellation")
+		verifAssert(end-rd.at[rd.cancelAt] <= perFailure, "cancellation during a burst of failures did not end the stream promptly")
+		verifAssert(n >= rd.cancelAt && n <= rd.cancelAt+1, "errors lost or duplicated around cancellation")
+	} else {
+		verifCover("ran-through")
+		verifAssert(n == N, "not every unknown failure was reported")
+		verifAssert(pr.seen == 1, "the frame behind the failures was not processed")
+		verifAssert(rd.calls == N+2, "reading did not continue up to the closing fault")
+	}
+}
